@@ -72,7 +72,9 @@ func Sleep(d time.Duration) {
 		time.Sleep(d)
 		return
 	}
-	slept = append(slept, d)
+	if len(slept) < 4096 { // bounded record: long histories replay from their first operation
+		slept = append(slept, d)
+	}
 	my := gen
 	parked++
 	arrivals++
@@ -138,7 +140,7 @@ func ReleaseAll() {
 	mu.Unlock()
 }
 
-// Slept returns the durations passed to Sleep so far.
+// Slept returns the durations passed to Sleep so far (the first 4096 since Enable).
 func Slept() []time.Duration {
 	mu.Lock()
 	defer mu.Unlock()
